@@ -5,7 +5,51 @@
 // call sites into an exported event and to give the harness read access to the runner's shared state.
 package runner
 
-import "sync"
+import (
+	"reflect"
+	"sync"
+	"unsafe"
+)
+
+// The gate's capacity is read and written through reflection so that the harness keeps compiling when the field
+// changes its type (int, sized ints, sync/atomic.Int32/Int64).
+func capField(g *gate) reflect.Value {
+	f := reflect.ValueOf(g).Elem().FieldByName("capacity")
+	if f.IsValid() && f.Kind() == reflect.Struct { // atomic.IntNN: the value is in field v
+		if v := f.FieldByName("v"); v.IsValid() {
+			f = v
+		}
+	}
+	return f
+}
+
+func capGet(g *gate) int {
+	f := capField(g)
+	if !f.IsValid() {
+		return -1 << 30
+	}
+	switch f.Kind() {
+	case reflect.Int, reflect.Int8, reflect.Int16, reflect.Int32, reflect.Int64:
+		return int(f.Int())
+	case reflect.Uint, reflect.Uint8, reflect.Uint16, reflect.Uint32, reflect.Uint64:
+		return int(f.Uint())
+	}
+	return -1 << 30
+}
+
+func capSet(g *gate, n int) {
+	f := capField(g)
+	if !f.IsValid() || !f.CanAddr() {
+		return
+	}
+	w := reflect.NewAt(f.Type(), unsafe.Pointer(f.UnsafeAddr())).Elem()
+	switch f.Kind() {
+	case reflect.Int, reflect.Int8, reflect.Int16, reflect.Int32, reflect.Int64:
+		w.SetInt(int64(n))
+	case reflect.Uint, reflect.Uint8, reflect.Uint16, reflect.Uint32, reflect.Uint64:
+		w.SetUint(uint64(n))
+	}
+}
 
 // VerifEvent is what a verifPoint call site means to the harness.
 type VerifEvent struct {
@@ -22,13 +66,13 @@ type VerifEvent struct {
 type VerifRunner struct{ r *runner }
 
 // SetCapacity overrides the parallelism limit. Only called at run.init, before any goroutine exists.
-func (v *VerifRunner) SetCapacity(n int) { v.r.gate.capacity = n }
+func (v *VerifRunner) SetCapacity(n int) { capSet(v.r.gate, n) }
 
 func (v *VerifRunner) Capacity() int {
 	g := v.r.gate
 	g.m.Lock()
 	defer g.m.Unlock()
-	return g.capacity
+	return capGet(g)
 }
 
 // VerifTargetState is the final shared state of one target.
@@ -78,10 +122,8 @@ func VerifInstall(sink func(VerifEvent)) {
 		case string:
 			ev.Label = a
 		case *gate:
-			ev.Capacity = a.capacity // the caller holds a.m
-			if name == "gate.woke" {
-				ev.Locker = &a.m
-			}
+			ev.Capacity = capGet(a) // the caller holds a.m
+			ev.Locker = &a.m
 		case *runner:
 			ev.Runner = &VerifRunner{a}
 		}
